@@ -14,6 +14,13 @@ Oracle (the property statement): neither half of the password (two markers aroun
 occurs in any sink; the configuration log line and meta.src still show scheme and host of every URI (the mask
 utils.hide_uri_users_and_pwds is the documented form: 'scheme://****@host').
 
+Long-configuration family ('long' groups): LONG_N credential-bearing URIs of equal printed width under one key (comma
+list, list, per-source records, nested under an arbitrary key) and an id that is padded character by character over one
+full period of the printed per-URI record, so that EVERY character position of the printed configuration behind the
+first URI carries every character of 'user:password@' in exactly one configuration of the sweep: whatever is done to the
+printed text at a fixed position (shortening, wrapping, chunking) meets the credential at every offset.  In this family a
+leak is any 3+ character piece of the password (a cut may leave only the beginning of one).
+
 The framework runs the target with LOG_LEVEL=CRITICAL; while a sink is captured the root logger is switched to INFO and
 its handlers are replaced by a collecting handler.
 """
@@ -80,6 +87,16 @@ GLOBAL_OPTS = {
 OPT_PLACEMENTS = ('string', 'comma-space', 'list', 'records')
 OPT_FIELD      = {'VideoIn': 'sources', 'VideoOut': 'outputs'}
 
+# Long-configuration family: LONG_N URIs with hosts / topics of equal width, the id padded by 0 .. period - 1 characters
+LONG_N          = 64
+LONG_FRAG       = 3     # a piece of the password of this many characters in a sink is a leak
+LONG_MAX_PERIOD = 256   # pad sweep when the period of the printed records cannot be measured
+LONG_PLACEMENTS = {'field': ('comma-space', 'list', 'records'), 'extra': ('x-comma-space', 'x-list', 'x-dict-of-list')}
+LONG_FILTERS    = {'quick': (('Filter', 'sources'), ('VideoIn', 'sources'), ('VideoOut', 'outputs'), ('Util', 'extra'))}
+LONG_URIS       = {'quick': (('rtsp', 'u', '!', '/stream'), ('http', 'u.x', '', ':8554/stream'))}
+
+SIG_LONG_CUT = 'C15/incomplete-config-log-line-shows-password'
+
 
 # ---- case -> configuration -----------------------------------------------------------------------------------------------------
 
@@ -89,6 +106,9 @@ def make_uri(scheme, user, ins, tail, host):
 
 def placed(case):
     """-> (value to put under the key, hosts that must stay readable)"""
+
+    if case.get('long'):
+        return placed_long(case)
 
     u1 = make_uri(case['scheme'], case['user'], case['ins'], case['tail'], HOST1)
     u2 = make_uri(case['scheme'], case['user'], case['ins'], case['tail'], HOST2)
@@ -144,9 +164,41 @@ def placed(case):
     raise ValueError(p)
 
 
+def long_hosts(n):
+    return [f'cam{i:02}.local' for i in range(n)]
+
+
+def placed_long(case):
+    """LONG_N URIs that differ in two digits of the host (and of the topic) only: every one has the same printed width."""
+
+    hosts  = long_hosts(case['long'])
+    uris   = [make_uri(case['scheme'], case['user'], case['ins'], case['tail'], h) for h in hosts]
+    topics = [f't{i:02}' for i in range(len(uris))]
+    p      = case['placement'].removeprefix('x-')
+    rk     = 'output' if case['field'] == 'outputs' else 'source'
+
+    if p == 'records':
+        return [{rk: u, 'topic': t} for u, t in zip(uris, topics)], hosts
+
+    if case['filter'] in ('VideoIn', 'ImageIn') and case['field'] == 'sources':
+        uris = [f'{u};{t}' for u, t in zip(uris, topics)]  # input filters want one topic per source
+
+    if p == 'comma-space':
+        return ', '.join(uris), hosts
+    if p == 'list':
+        return uris, hosts
+    if p == 'dict-of-list':
+        return {'cams': uris}, hosts
+
+    raise ValueError(p)
+
+
 def build_config(case):
     base       = dict(COMMON, **FILTERS[case['filter']][2])
     val, hosts = placed(case)
+
+    if case.get('long'):
+        base['id'] = COMMON['id'] + 'p' * case['pad']  # printed in front of everything else: shifts every URI by one character
 
     base[EXTRA_KEY if case['field'] == 'extra' else case['field']] = val
 
@@ -364,6 +416,24 @@ def _has_marker(text):
     return M1 in text or M2 in text
 
 
+def _password(case):
+    return f'{M1}{case["ins"]}{M2}'
+
+
+def _fragments(case):
+    """Every LONG_FRAG character piece of the password (long-configuration family)."""
+
+    pw = _password(case)
+
+    return sorted({pw[i : i + LONG_FRAG] for i in range(len(pw) - LONG_FRAG + 1)})
+
+
+def _printed(config):
+    """The text Filter.__init__ has to log in masked form: str() of the configuration without its '_...' entries."""
+
+    return str({k: v for k, v in config.items() if not (isinstance(k, str) and k.startswith('_'))})
+
+
 def _regex_sig(case, leaf):
     """Root cause when utils.hide_uri_users_and_pwds(leaf) itself still shows the password."""
 
@@ -434,7 +504,10 @@ def execute(case):
         out['sinks']['init-log']       = list(msgs)
         out['sinks']['lineage-facets'] = list(em.starts)
 
-        if out['status'] == 'ok' and case['filter'] == 'VideoIn' and case['field'] == 'sources' and \
+        if case.get('long'):  # construction and init only: the per-source video log lines do not grow with the configuration
+            pass
+
+        elif out['status'] == 'ok' and case['filter'] == 'VideoIn' and case['field'] == 'sources' and \
                 case['scheme'] in ('rtsp', 'rtmp', 'http', 'https'):
             metas = []
             vin   = sys.modules['openfilter.filter_runtime.filters.video_in']
@@ -469,7 +542,8 @@ def execute(case):
             out['sinks']['video-log'] = list(msgs)
             out['sinks']['meta-src']  = metas
 
-        if out['status'] == 'ok' and case['filter'] == 'VideoOut' and case['field'] == 'outputs' and case['scheme'] == 'rtsp':
+        if out['status'] == 'ok' and case['filter'] == 'VideoOut' and case['field'] == 'outputs' and case['scheme'] == 'rtsp' and \
+                not case.get('long'):
             with capture_logs() as msgs, fake_vidgear():
                 try:
                     inst.setup(inst.config)
@@ -592,6 +666,9 @@ def judge(case, res):
                     else:
                         sigs.append('C15/config-log-dict-not-walked')
 
+                if logged is None and case.get('long'):  # not a complete literal: something shortened / broke the line up
+                    sigs = [SIG_LONG_CUT]
+
                 for sig in sigs or ['C15/config-log-other']:
                     add(sig, f'the start-up log line shows the password: {shown}')
 
@@ -600,11 +677,40 @@ def judge(case, res):
 
                 add(sig, f'{sink} shows the password: {shown}')
 
+    # -- long-configuration family: a piece of the password is a leak too
+    if case.get('long'):
+        frags = _fragments(case)
+
+        for sink, texts in sinks.items():
+            for text in texts:
+                hit = None if _has_marker(text) else next((f for f in frags if f in text), None)  # whole halves: judged above
+
+                if hit is None:
+                    continue
+
+                pw    = _password(case)
+                hit   = next(pw[i : i + n] for n in range(len(pw), LONG_FRAG - 1, -1) for i in range(len(pw) - n + 1) if pw[i : i + n] in text)
+                at    = text.index(hit)
+                shown = f'{text[:120]} ... {text[max(0, at - 120) : at + 40]}' if at > 240 else text[: at + 40]
+
+                if sink == 'construct-log' and '(config=' in text:
+                    try:
+                        ast.literal_eval(text[text.index('(config=') + 8 : text.rindex(')')])
+                    except Exception:
+                        add(SIG_LONG_CUT, f'the start-up log line is incomplete and shows {hit!r} of the password: {shown}')
+                    else:
+                        add('C15/config-log-shows-part-of-password', f'the start-up log line shows {hit!r} of the password: {shown}')
+                else:
+                    add(f'C15/{sink}-shows-part-of-password', f'{sink} shows {hit!r} of the password: {shown}')
+
     # -- the rest of the URI stays readable: configuration log line and meta.src
     line = next((m for m in sinks.get('construct-log', ()) if '(config=' in m), None)
 
     if case['filter'] == 'VideoWriter':
         pass
+
+    elif case.get('long') and line is not None:  # readability is judged on the short configurations: a start-up line that shows
+        pass                                     # only the beginning of a very long configuration does not break the property
 
     elif line is None:
         add('C15/no-config-log-line', 'no Cls(config=...) line was logged during construction (harness or target changed?)')
@@ -664,18 +770,45 @@ def _groups():
     yield 'VideoWriter', 'output', 'string', 'direct', 'adaptive-restart'
 
 
+def _long_filters(tier):
+    if tier == 'quick':
+        return LONG_FILTERS['quick']
+
+    return tuple((name, field) for name, (_, _, _, fields) in FILTERS.items() for field in fields + ('extra',))
+
+
+def _long_uris(tier):
+    if tier == 'quick':
+        return LONG_URIS['quick']
+
+    return tuple(('rtsp', u, i, '/stream') for u in USERS for i in INS) + LONG_URIS['quick'][1:] + \
+        tuple((s, 'u', '!', '/stream') for s in SCHEMES if s != 'rtsp')
+
+
+def _long_groups(tier):
+    """(filter, field, placement, mode, 'long'): one work item each; the URIs and the pad sweep are looped inside."""
+
+    for name, field in _long_filters(tier):
+        for placement in LONG_PLACEMENTS['extra' if field == 'extra' else 'field']:
+            for mode in MODES:
+                yield name, field, placement, mode, 'long'
+
+
 def _case_key(c):
     return (c['user'] != 'u', c['ins'] != '', TAILS.index(c['tail']), c['mode'] != 'raw-dict',
         (FIELD_PLACEMENTS + EXTRA_PLACEMENTS).index(c['placement']), (list(FILTERS) + ['VideoWriter']).index(c['filter']), c['field'],
-        SCHEMES.index(c['scheme']), c['user'], INS.index(c['ins']), c['mode'], c.get('opt') or '')
+        SCHEMES.index(c['scheme']), c['user'], INS.index(c['ins']), c['mode'], c.get('opt') or '', c.get('long', 0), c.get('pad', 0))
 
 
 def _group_item(item):
     tier, (name, field, placement, mode, opt) = item
-    res = dict(n=0, nontrivial=0, status={}, viol={}, sinks=0, restarts=0, opt_cases=0)
+    res = dict(n=0, nontrivial=0, status={}, viol={}, sinks=0, restarts=0, opt_cases=0, long=[])
 
     with capture_logs():
-        _group_loop(tier, name, field, placement, mode, opt, res)
+        if opt == 'long':
+            _long_loop(tier, name, field, placement, mode, res)
+        else:
+            _group_loop(tier, name, field, placement, mode, opt, res)
 
     return res
 
@@ -702,32 +835,96 @@ def _group_loop(tier, name, field, placement, mode, opt, res):
             res['nontrivial'] += 1  # the filter was constructed far enough to emit something
             res['sinks'] += sum(len(x) for x in r['sinks'].values())
 
-        for sig, text in v:
-            key = _case_key(case)
-            cur = res['viol'].get(sig)
-            txt = f"VideoWriter({r['raw']['output']!r}, fps=True), 30 fps dropping to 10 fps: {text}" if name == 'VideoWriter' else \
-                f"{name}(config={{... {EXTRA_KEY if field == 'extra' else field!r}: {placed(case)[0]!r}" \
-                f"{''.join(f', {k!r}: {v!r}' for k, v in GLOBAL_OPTS.get(opt, {}).items())} ...}}) [{mode}]: {text}"
+        if v:
+            _note_violations(res, case, f"VideoWriter({r['raw']['output']!r}, fps=True), 30 fps dropping to 10 fps" if name == 'VideoWriter' else
+                f"{name}(config={{... {EXTRA_KEY if field == 'extra' else field!r}: {placed(case)[0]!r}"
+                f"{''.join(f', {k!r}: {x!r}' for k, x in GLOBAL_OPTS.get(opt, {}).items())} ...}}) [{mode}]", v)
 
-            if cur is None:
-                res['viol'][sig] = [1, key, txt, case]
-            else:
-                cur[0] += 1
 
-                if key < cur[1]:
-                    cur[1:] = [key, txt, case]
+def _note_violations(res, case, txt, v):
+    for sig, text in v:
+        key = _case_key(case)
+        cur = res['viol'].get(sig)
+
+        if cur is None:
+            res['viol'][sig] = [1, key, f'{txt}: {text}', case]
+        else:
+            cur[0] += 1
+
+            if key < cur[1]:
+                cur[1:] = [key, f'{txt}: {text}', case]
+
+
+def _long_loop(tier, name, field, placement, mode, res):
+    """Long-configuration family: for every URI, pad 0 measures the period of the printed records, then the id is padded by
+    1 .. period - 1 characters.  Records per (group, URI): period, number of configurations, and the range of positions of
+    the printed configuration on which every character of 'user:password@' came to lie in one configuration of the sweep."""
+
+    for scheme, user, ins, tail in _long_uris(tier):
+        base   = dict(filter=name, field=field, placement=placement, mode=mode, scheme=scheme, user=user, ins=ins, tail=tail, long=LONG_N)
+        cred   = f'{user}:{_password(base)}@'
+        starts = set()
+        period = None
+        length = 0
+        pad    = 0
+
+        while pad < (LONG_MAX_PERIOD if period is None else period):
+            case = dict(base, pad=pad)
+            r, v = run_case(case)
+            st   = r['status'].split(':')[0]
+
+            res['n'] += 1
+            res['status'][st] = res['status'].get(st, 0) + 1
+
+            if r['sinks']:
+                res['nontrivial'] += 1
+                res['sinks'] += sum(len(x) for x in r['sinks'].values())
+
+            _note_violations(res, case, f"{name}(config={{'id': 'flt' + {pad} x 'p', ... {EXTRA_KEY if field == 'extra' else field!r}: "
+                f"<{LONG_N} URIs {make_uri(scheme, user, ins, tail, 'camNN.local')!r}, NN = 00 .. {LONG_N - 1}, as {placement}> ...}}) [{mode}]", v)
+
+            if st == 'not-normalisable':  # this placement has no normalised form (nothing was run): no sweep
+                pad += 1
+
+                break
+
+            if r['config'] is not None:  # where do the credentials lie in the text that has to be logged in masked form?
+                printed = _printed(r['config'])
+                at      = [i for i in range(len(printed)) if printed.startswith(cred, i)]
+                length  = max(length, len(printed))
+
+                starts.update(at)
+
+                if pad == 0:
+                    clean = printed.replace(_password(base), '')
+                    bad   = [f for f in _fragments(base) if f in clean]
+
+                    if bad:
+                        raise AssertionError(f'harness: the pieces {bad} of the password occur in the configuration of {case} outside the password')
+
+                    if len(at) >= 2:
+                        period = max(b - a for a, b in zip(at, at[1:]))
+
+            pad += 1
+
+        full = sorted(p for p in {s + k for s in starts for k in range(len(cred))} if all(p - k in starts for k in range(len(cred))))
+
+        res['long'].append(dict(period=period, configs=pad, credentials=len(starts), printed_len=length, covered=len(full),
+            first=full[0] if full else None, last=full[-1] if full else None,
+            contiguous=bool(full) and full[-1] - full[0] + 1 == len(full)))
 
 
 def run(rep):
     tier   = rep.tier
-    groups = [g for g in _groups() if not rep.only or rep.only in '/'.join(x or '' for x in g)]
+    groups = [g for g in list(_groups()) + list(_long_groups(tier)) if not rep.only or rep.only in '/'.join(x or '' for x in g)]
     uris   = _uris(tier)
     viols  = {}
 
     rep.set('rule', 'case = (filter, URI-valued field or an arbitrary extra key, placement, raw dict | raw FilterConfig | '
         'already normalised, scheme, user, password special character, URI with/without path): the full cross product is '
         'enumerated, each case constructs the real filter; non-trivial = the filter got far enough to emit at least one '
-        'sink text (log record, facets, meta.src); distinct by construction')
+        'sink text (log record, facets, meta.src); distinct by construction.  Long-configuration family: case = (filter, field, '
+        f'placement, mode, URI, id padding 0 .. period - 1) with {LONG_N} URIs per configuration, every padding of the period executed')
     rep.set('distinct_nontrivial', 0)
     rep.assumption('sinks: root-logger records during __init__ / init / VideoIn.setup / VideoOut writer creation, START facets '
         "given to the emitter, meta['src'] of VideoIn frames; exception messages that are not logged are not a sink")
@@ -740,17 +937,32 @@ def run(rep):
         'list / records; VideoWriter adaptive restart: real VideoWriter(uri, fps=True), stub WriteGear, patched time_ns, 60 frames '
         'at 30 fps then 320 at 10 fps (the run fails as a harness error if no restart happens)')
 
-    rep.part('domain', filters=len(FILTERS), groups_filter_field_placement_mode=len(groups), schemes=len({u[0] for u in uris}),
+    rep.assumption(f'long-configuration family: {LONG_N} URIs of equal printed width under one key (comma list, list, per-source '
+        'records, comma list / list / dict of a list under an arbitrary key), id = "flt" + k x "p" for k = 0 .. period - 1 where period is '
+        'the measured distance of two credentials in str() of the configuration the filter logs (pad 0), so that every character of '
+        f'"user:password@" comes to lie on every text position behind the first URI once; a leak is any {LONG_FRAG} character piece of '
+        'the password in a log record or in the START facets (the pieces are checked not to occur elsewhere in the configuration); '
+        'construction and init only (no video readers / writers); the readability of hosts is not judged in this family; '
+        'quick: Filter / VideoIn / VideoOut URI field and an arbitrary key of Util, 2 URIs; thorough: every filter and field, '
+        'every user x special on rtsp and one URI per other scheme')
+
+    plain = [g for g in groups if g[4] != 'long']
+
+    rep.part('domain', filters=len(FILTERS), groups_filter_field_placement_mode=len(plain), schemes=len({u[0] for u in uris}),
         users=len(USERS), password_specials=len(INS), tails=len(TAILS), uris=len(uris),
-        product=sum(len(_opt_uris(tier) if g[4] else uris) for g in groups),
-        option_groups=sum(1 for g in groups if g[4]), options_videoin=len(OPTS['VideoIn']), options_videoout=len(OPTS['VideoOut']),
+        product=sum(len(_opt_uris(tier) if g[4] else uris) for g in plain),
+        option_groups=sum(1 for g in plain if g[4]), options_videoin=len(OPTS['VideoIn']), options_videoout=len(OPTS['VideoOut']),
         option_family_uris=len(_opt_uris(tier)))
+
+    long = []
 
     for r in common.pmap(_group_item, [(tier, g) for g in groups]):
         rep.add('evaluations', r['n'])
         rep.add('distinct_nontrivial', r['nontrivial'])
         rep.part('outcome', sink_texts_examined=r['sinks'], option_family_cases=r['opt_cases'],
             adaptive_fps_stream_restarts_driven=r['restarts'], **{f'status_{k}': v for k, v in r['status'].items()})
+
+        long.extend(r['long'])
 
         for sig, (n, key, text, case) in r['viol'].items():
             cur = viols.get(sig)
@@ -762,6 +974,20 @@ def run(rep):
 
                 if key < cur[1]:
                     cur[1:] = [key, text, case]
+
+    if long:
+        swept = [x for x in long if x['covered']]
+
+        rep.part('long_configurations', groups_filter_field_placement_mode=sum(1 for g in groups if g[4] == 'long'),
+            uris_per_group=len(_long_uris(tier)), credentials_per_configuration=LONG_N, sweeps=len(long), configurations=sum(x['configs'] for x in long),
+            sweeps_period_measured=sum(1 for x in long if x['period']), sweeps_without_a_credential_in_the_printed_form=len(long) - len(swept),
+            sweeps_covering_a_contiguous_range=sum(1 for x in swept if x['contiguous']),
+            text_positions_carrying_every_credential_character=sum(x['covered'] for x in swept))
+
+        if swept:
+            rep.part('long_configurations', period_min=min(x['period'] or LONG_MAX_PERIOD for x in swept), period_max=max(x['period'] or LONG_MAX_PERIOD for x in swept),
+                printed_length_min=min(x['printed_len'] for x in swept), printed_length_max=max(x['printed_len'] for x in swept),
+                covered_range_every_sweep_from=max(x['first'] for x in swept), covered_range_every_sweep_to=min(x['last'] for x in swept))
 
     for sig in sorted(viols):
         n, key, text, case = viols[sig]
